@@ -162,3 +162,31 @@ def s_relabel(ex, st, recv, args, kw, e):
 
 
 SUMMARIES = {"Circuit.relabel": s_relabel, "Circuit.add_blackbox": s_add_blackbox, "Circuit.copy": s_copy, "Circuit.add_subcircuit": s_add_subcircuit}
+
+
+def concrete_circuit(ex, st, name, nodes, edges):
+    """a new circuit with exactly the given literal nodes [(name, type, output)] and edges [(u, v)], no blackboxes"""
+    ctx = ex.ctx
+    L = lambda s_: ex.name_term(StrLit(s_))
+    g = Graph.empty(ctx)
+    N, hasty, ty, hasout, out, FI = g.N, g.hasty, g.ty, g.hasout, g.out, g.FI
+    for n, t, o in nodes:
+        N = z3.Store(N, L(n), True)
+        hasty = z3.Store(hasty, L(n), True)
+        ty = z3.Store(ty, L(n), ctx.tval[t])
+        hasout = z3.Store(hasout, L(n), True)
+        out = z3.Store(out, L(n), bool(o))
+    for u, v in edges:
+        FI = z3.Store(FI, L(v), z3.Store(z3.Select(FI, L(v)), L(u), True))
+    goid = alloc(st, Graph(N, hasty, ty, hasout, out, FI), "graph")
+    boid = alloc(st, BBDict.empty(ctx), "bbdict")
+    return ObjRef(alloc(st, CircuitRec(goid, boid, StrLit(name)), "circuit"), "Circuit")
+
+
+def s_half_adder(ex, st, recv, args, kw, e):
+    """logic.half_adder(): inputs x, y; c = and(x, y) and s = xor(x, y), both outputs (proved on the body: C13/half_adder)"""
+    return concrete_circuit(ex, st, "half_adder", [("x", "input", False), ("y", "input", False), ("c", "and", True), ("s", "xor", True)],
+                            [("x", "c"), ("y", "c"), ("x", "s"), ("y", "s")])
+
+
+SUMMARIES["half_adder"] = s_half_adder
